@@ -26,10 +26,19 @@ legs: MC   TLC checks the laws of the inventory algebra (monoid, F(a+b) = F(a)+F
            history of statements runs; expectations are the sums / f-sums TLC emitted for the case.
       C2S  tables of per-transaction inventories from the example ledger and random ledgers, histories of 2..4 random
            statements; the table is recorded before anything runs; TLC (Trace_SumStore) judges every statement.
+      LIMIT (no ORDER BY) on aggregate statements: the mechanism SumStore returns the first `limit` groups in creation
+      order, the property (InvSum!Conforms) asks for that many rows of the statement without LIMIT, each one complete;
+      non-vacuity: a scan abandoned when group number limit + 1 shows up must be rejected.  Every S2C case / C2S line also
+      runs a grouped statement with a LIMIT below / at / above the number of groups (sum(position) families: `lgroups`
+      of the hom line, judged by Trace_Balance; inventory tables and sub-selects: `limit` of the statement), and the
+      balance statements of C2S carry a LIMIT now and then (the rows are then a prefix of SerialRows).
+      Price directives dated AFTER the day the check runs (forecasts) are part of the generated price tables, the random
+      ledgers and the example windows: "no date" means the latest price entered, for positions and inventories alike.
       A mismatch is replayed by TLC on the mechanism as shipped before fix 678e809 (Trace_Balance_shipped.cfg, one
       process-wide cache entry): if that explains the observation exactly and the statement has the matching shape the
       violation gets the key of that defect (listed as fixed in known_findings.d), otherwise a key naming the statement shape.
 """
+import dataclasses
 import datetime
 import io
 import json
@@ -66,6 +75,18 @@ def hom_targets(fs, x_row='position', x_sum='sum(position)'):
     return tg
 
 
+def limited(sel, n):
+    """the assembled SELECT with LIMIT n (n = 0: as is)"""
+    return dataclasses.replace(sel, limit=n) if n else sel
+
+
+FUTURE0 = datetime.date(2100, 1, 1).toordinal()     # "after the day the check runs", for the foreseeable future
+
+
+def future_ordinal(rng):
+    return FUTURE0 + rng.randint(0, 300000)
+
+
 # ---- S2C ---------------------------------------------------------------------------------------------------------
 class Suspects:
     """observations the property-conforming specification does not explain; classified at the end by replaying them
@@ -97,14 +118,22 @@ def replay_case(ctx, c, rseed, suspects, sample=False):
     prog = {k: c[k] for k in ('ledger', 'mask', 'where', 'targets', 'subbal')}
     prog['agg'] = False
     scale = rng.choice((1, 1, 10, 100))
-    entries = hb.build_entries(c['ledger'], c['mask'], c['grp'], c['prices'], rng, scale)
+    from beancount.core import data
+    # price directives may be dated after the last transaction (and after today): keep the ledger in date order
+    entries = sorted(hb.build_entries(c['ledger'], c['mask'], c['grp'], c['prices'], rng, scale), key=data.entry_sortkey)
     conn = hb.connect(entries)
     case = {'kind': 'balance', 'case': c, 'scale': scale, 'rseed': rseed}
     ok = True
     # -- the balance column
+    lim, lrows = 0, None
     try:
         rows, text = hb.run_program(conn, prog, rng=rng, as_text=sample)
         again = hb.run_program(conn, prog, rng=rng)[0] if rng.random() < 0.3 else rows
+        if rng.random() < 0.25:
+            # the same statement with a LIMIT: the first rows of the specification's rows
+            lim = rng.randint(1, 4)
+            ltext, params, cols, parts = hb.statement(prog, 0, rng)
+            lrows = hb.project_rows(conn.execute(limited(hb.select(*parts), lim), params).fetchall(), cols)
     except Exception as ex:  # noqa
         ctx.violation('balance:exception:%s' % type(ex).__name__, 'statement raised %r' % (ex,), case, 'S2C')
         return False
@@ -112,6 +141,10 @@ def replay_case(ctx, c, rseed, suspects, sample=False):
     why = cmp_rows(exp, rows) or cmp_rows(exp, again)
     if why:
         suspects.add('S2C', prog, rows if cmp_rows(exp, rows) else again, case, exp, text)
+        ok = False
+    elif lrows is not None and cmp_rows(exp[:lim], lrows):
+        ctx.violation('balance:limit:' + hb.shape_key(prog), 'rows of %s LIMIT %d: %s' % (
+            ltext, lim, cmp_rows(exp[:lim], lrows)), dict(case, limit=lim), 'S2C', hb_show_rows(exp[:lim]), hb_show_rows(lrows))
         ok = False
     if sample:
         ctx.sample({'leg': 'S2C', 'statement': text, 'ledger': c['ledger'], 'mask': c['mask'],
@@ -140,7 +173,14 @@ def compare_stmt(bad, got, s, hom, fs, scale, what):
     else:
         want = {0: hom['total']}
     keys = sorted(r[0] for r in got)
-    if keys != sorted(want):
+    lim = s.get('limit', 0)
+    if lim:
+        # that many of the groups (all of them when there are fewer), no group twice; which ones: not C12's business
+        if len(keys) != min(lim, len(want)) or len(set(keys)) != len(keys) or not set(keys) <= set(want):
+            bad('sum:inventory:groups:limit', 'groups returned by %s' % what,
+                '%d of %s' % (min(lim, len(want)), sorted(want)), keys)
+            return
+    elif keys != sorted(want):
         bad('sum:inventory:groups', 'groups returned by %s' % what, sorted(want), keys)
         return
     for key, vals in got:
@@ -220,6 +260,9 @@ def check_hom(ctx, conn, fs, hom, where, scale, case, scope, rng, as_text=False)
                   ('sum(units(position))', 'u')], None, where, ['g'])
         prows = hb.run_select(conn, [('sum(s)', 't'), ('sum(c)', 'tc'), ('sum(u)', 'tu')], inner, as_text=as_text) \
             if as_text or rng.random() < 0.3 else None
+        # the grouped statement with a LIMIT below / at / above the number of groups, no ORDER BY
+        lim = rng.choice((1, 1, 1, 2, 3))
+        lrows = conn.execute(hb.select_text(*inner) + ' LIMIT %d' % lim if as_text else limited(hb.select(*inner), lim)).fetchall()
         # partial sums (per account and day) aggregated again: the operand of sum() is an inventory, one to three
         # aggregate nodes read it (sum, f of the sum, sum of f), with / without GROUP BY and HAVING
         inner2 = ([('account', 'acc'), ('date', 'd'), ('sum(position)', 'inv')], None, where, ['acc', 'd'])
@@ -231,9 +274,11 @@ def check_hom(ctx, conn, fs, hom, where, scale, case, scope, rng, as_text=False)
     except Exception as ex:  # noqa
         bad('sum:exception:%s' % type(ex).__name__, 'aggregate statement raised %r' % (ex,), None, None)
         return False
-    ctx.case(None, n=4)
+    ctx.case(None, n=5)
     empty = {'tot': [], 'f': [[] for _ in fs]}
     if hom['n'] == 0:
+        if lrows:
+            bad('sum:groups:empty:limit', 'groups of an empty selection, LIMIT %d' % lim, [], len(lrows))
         # "no qualifying row yields no row" belongs to C02; an all-empty row is accepted here as well
         for r in rows:
             cmp_row(r, empty, 'the empty selection')
@@ -265,6 +310,19 @@ def check_hom(ctx, conn, fs, hom, where, scale, case, scope, rng, as_text=False)
                 if e != g:
                     bad('sum:partition:%s' % what, 'sum over the group sums of %s = sum of the whole' % what,
                         hb.show_inv(e), hb.show_inv(g))
+        lkeys = [r[0] for r in lrows]
+        if len(lkeys) != min(lim, len(want)) or len(set(lkeys)) != len(lkeys) or not set(lkeys) <= set(want):
+            bad('sum:groups:limit', 'groups returned by GROUP BY g LIMIT %d' % lim,
+                '%d of %s' % (min(lim, len(want)), sorted(want)), lkeys)
+        else:
+            for r in lrows:
+                got = [hb.proj_any(v) for v in r[1:]]
+                for e_, g_, what in zip((want[r[0]]['tot'], want[r[0]]['f'][cost_i], want[r[0]]['f'][units_i]), got,
+                                        ('position', 'cost', 'units')):
+                    e_ = hb.spec_inventory(e_, scale)
+                    if e_ != g_:
+                        bad('sum:limit:%s' % what, 'sum of %s of group %s returned with LIMIT %d (%d groups)' % (
+                            what, r[0], lim, len(want)), hb.show_inv(e_), hb.show_inv(g_))
         if irows is not None:
             compare_stmt(bad, irows, s2, hom, fs, scale, ss.stmt_text(s2, '(%s)' % hb.select_text(*inner2), key='leaf(acc)'))
     return ok
@@ -316,6 +374,13 @@ def window(entries, rng, lo=8, hi=70):
         if n >= want:
             break
     prices = [e for e in entries if isinstance(e, data.Price)]
+    # forecasts: now and then a commodity held at cost in the window gets a price dated after the day the check runs
+    from beancount.core import amount
+    held = sorted({(p.units.currency, p.cost.currency) for e in picked for p in e.postings if p.cost is not None})
+    for cur, quote in held:
+        if rng.random() < 0.5:
+            prices.append(data.Price(dict(hb.META), datetime.date.fromordinal(future_ordinal(rng)), cur,
+                                     amount.Amount(hb.D(rng.randint(10, 3000)) / 10, quote)))
     return with_pids(sorted(prices + picked, key=data.entry_sortkey))
 
 
@@ -341,6 +406,10 @@ def random_ledger(rng, n):
         d = datetime.date(2020, 1, 1) + datetime.timedelta(days=rng.randint(0, 400))
         if not any(p[0] == 'USD' and p[2] == d.toordinal() for p in plist):
             plist.append(('USD', 'CAD', d.toordinal(), D(rng.randint(10, 20)) / 10))
+    # forecasts: prices dated after the day the check runs -- on top of earlier ones, or the only ones of the pair
+    for cur, quote in (('HOOL', 'USD'), ('AAPL', 'USD'), ('USD', 'CAD')):
+        if rng.random() < 0.3:
+            plist.append((cur, quote, future_ordinal(rng), D(rng.randint(10, 300)) / 10))
     for b, q, d, r in plist:
         entries.append(data.Price(dict(hb.META), datetime.date.fromordinal(d), b, amount.Amount(r, q)))
     date = datetime.date(2021, 1, 1)
@@ -381,7 +450,7 @@ RND_MASKS = ("account ~ 'Bank'", "account ~ ':A'", "number > 0", "currency = 'US
              "NOT account ~ ':C'", "cost_label IS NOT NULL")
 EX_GROUPS = ('root(account, 1)', 'root(account, 2)', 'currency', 'month(date)', 'account')
 EX_DATES = (734900, 735200, 735400)
-RND_DATES = (737400, 737600, 737790)
+RND_DATES = (737400, 737600, 737790, FUTURE0 + 150000)
 RND_GROUPS = ('leaf(account)', 'root(account, 2)', 'currency', 'cost_currency', 'account')
 
 
@@ -394,14 +463,15 @@ def record_serial(ctx, conn, npost, rng, masks, out, suspects):
     prog = {'where': list(rng.choice(WHERES)), 'targets': list(rng.choice(TARGETS)), 'subbal': rng.random() < 0.6,
             'agg': False, 'mask': [bool(r[2]) for r in base]}
     style = {'mask_text': mask_text, 'split': rng.randint(0, len(prog['where'])), 'table': rng.random() < 0.5}
-    rows, text = run_with_mask(conn, prog, style)
+    lim = rng.randint(1, 12) if rng.random() < 0.3 else 0
+    rows, text = run_with_mask(conn, prog, style, lim)
     positions = [hb.proj_position(r[1]) for r in base]
     try:
         k = max([0] + [max(hb.places(n), hb.places(key[1][0])) for key, n in positions] + [hb.rows_scale(rows)])
         sc = 10 ** k
         prog['ledger'] = [hb.json_position(p, sc) for p in positions]
         line = {'k': 'serial', 'id': len(out) + 1, 'prog': hb.prog_to_trace(prog), 'rows': hb.rows_to_trace(rows, sc),
-                'sv': [[r[0], r[2]] for r in rows]}
+                'sv': [[r[0], r[2]] for r in rows], 'lim': lim}
     except hb.OutOfDomain:
         ctx.skipped += 1
         return
@@ -410,10 +480,10 @@ def record_serial(ctx, conn, npost, rng, masks, out, suspects):
     ctx.case('serial:' + text + json.dumps(prog['ledger'][:6]))
 
 
-def run_with_mask(conn, prog, style):
+def run_with_mask(conn, prog, style, lim=0):
     text, params, cols, parts = hb.statement(prog, 0, None, style)
-    raw = conn.execute(hb.select(*parts), params).fetchall()
-    return hb.project_rows(raw, cols), text
+    raw = conn.execute(limited(hb.select(*parts), lim), params).fetchall()
+    return hb.project_rows(raw, cols), text + (' LIMIT %d' % lim if lim else '')
 
 
 def record_hom(ctx, conn, rng, masks, groups, dates, out, prices=None):
@@ -428,9 +498,12 @@ def record_hom(ctx, conn, rng, masks, groups, dates, out, prices=None):
     per = hb.run_select(conn, [('position', 'p'), (fp, 'fp'), (g, 'g')], '#postings', where)
     tot = hb.run_select(conn, sums, '#postings', where, as_text=rng.random() < 0.02)
     grp = hb.run_select(conn, [(g, 'g')] + sums, '#postings', where, ['g'])
-    ctx.case('hom:%s:%s:%s:%d' % (f_name(f), where, g, len(per)), n=3)
+    # the grouped statement once more with a LIMIT (no ORDER BY): below, at or above the number of groups
+    lim = rng.choice((1, 1, 2, 3, 5))
+    lgrp = conn.execute(limited(hb.select([(g, 'g')] + sums, '#postings', where, ['g']), lim)).fetchall()
+    ctx.case('hom:%s:%s:%s:%d' % (f_name(f), where, g, len(per)), n=4)
     if not per:
-        if tot or grp:
+        if tot or grp or lgrp:
             ctx.violation('sum:rows:empty', 'aggregate over an empty selection returned rows', {'where': where}, 'C2S')
         return
     pos = [hb.proj_position(r[0]) for r in per]
@@ -440,8 +513,9 @@ def record_hom(ctx, conn, rng, masks, groups, dates, out, prices=None):
         ctx.violation('sum:rows', 'one row for an ungrouped aggregate', {'where': where}, 'C2S', 1, len(tot))
         return
     ginvs = [(r[0], [hb.proj_any(v) for v in r[1:]]) for r in grp]
+    linvs = [(r[0], [hb.proj_any(v) for v in r[1:]]) for r in lgrp]
     try:
-        allinv = invs + [x for _, gi in ginvs for x in gi]
+        allinv = invs + [x for _, gi in ginvs + linvs for x in gi]
         k = max([0] + [max(hb.places(n), hb.places(key[1][0])) for key, n in pos + fpos] + [hb.inv_places(d) for d in allinv]
                 + ([hb.places(p[3]) for p in prices] if prices else []))
         sc = 10 ** k
@@ -455,6 +529,12 @@ def record_hom(ctx, conn, rng, masks, groups, dates, out, prices=None):
                           'C2S', sorted(map(repr, idx)), sorted(repr(gk) for gk, _ in ginvs))
             return
         jgroups = [[idx[gk]] + [hb.json_inventory(x, sc) for x in gi] for gk, gi in ginvs]
+        if any(gk not in idx for gk, _ in linvs):
+            ctx.violation('sum:groups:limit-keys', 'GROUP BY %s LIMIT %d returned a key no row has' % (g, lim),
+                          {'where': where, 'group': g, 'limit': lim}, 'C2S', sorted(map(repr, idx)),
+                          [repr(gk) for gk, _ in linvs])
+            return
+        jlgroups = [[idx[gk]] + [hb.json_inventory(x, sc) for x in gi] for gk, gi in linvs]
         jprices = [[b, q, d, hb.scaled_int(r, sc)] for b, q, d, r in (prices or [])]
         op = 0
         if f[0] == 'units':
@@ -464,11 +544,11 @@ def record_hom(ctx, conn, rng, masks, groups, dates, out, prices=None):
             op = 1 if mul_in_domain(jpos + hb.json_inventory(invs[0], sc), jprices, sc) else 0
         line = {'k': 'hom', 'id': len(out) + 1, 'f': list(f), 'sc': sc, 'prices': jprices, 'op': op, 'pos': jpos,
                 'fpos': jf, 'sum_pos': hb.json_inventory(invs[0], sc), 'sum_f': hb.json_inventory(invs[1], sc),
-                'f_sum': hb.json_inventory(invs[2], sc), 'groups': jgroups}
+                'f_sum': hb.json_inventory(invs[2], sc), 'groups': jgroups, 'lim': lim, 'lgroups': jlgroups}
     except hb.OutOfDomain:
         ctx.skipped += 1
         return
-    line['_text'] = 'sum(%s) / %s WHERE %s GROUP BY %s' % (fp, fs, where, g)
+    line['_text'] = 'sum(%s) / %s WHERE %s GROUP BY %s [LIMIT %d]' % (fp, fs, where, g, lim)
     out.append(line)
 
 
@@ -536,7 +616,7 @@ def record_isum(ctx, conn, entries, rng, dates, out, prices=None):
                       {'statements': [ss.stmt_text(s) for s, _ in hist]}, 'C2S')
         return
     try:
-        stmts = [{'nodes': s['nodes'], 'grouped': s['grouped'], 'having': s['having'],
+        stmts = [{'nodes': s['nodes'], 'grouped': s['grouped'], 'having': s['having'], 'limit': s['limit'],
                   'rows': [[key, [hb.json_inventory(v, sc) for v in vals]] for key, vals in got]} for s, got in hist]
     except hb.OutOfDomain:
         ctx.skipped += 1            # a returned number is not representable at the table's scale / in 32 bits
@@ -582,7 +662,7 @@ def validate_isum(ctx, lines):
         nrej += 1
         ln = lines[n - 1]
         x = ln['stmts'][rj['stmt'] - 1]
-        s = ss.stmt(x['nodes'], x['grouped'], x['having'])
+        s = ss.stmt(x['nodes'], x['grouped'], x['having'], x['limit'])
         what = 'groups' if not rj['node'] else ss.node_name(x['nodes'][rj['node'] - 1])
         ctx.violation('sum:inventory:%s' % what,
                       'statement %d of the history (%s) on a table holding inventories: %s rejected by TLC' % (
@@ -664,7 +744,7 @@ def validate(ctx, lines, suspects):
             suspects.items[-1]['trace_rows'] = ln['rows']
         else:
             clause = {1: 'shape', 2: 'sum-position', 3: 'sum-of-f', 4: 'f-of-sum', 5: 'f-per-row', 6: 'f-of-sum-value',
-                      7: 'group', 8: 'partition'}.get(rj['row'], str(rj['row']))
+                      7: 'group', 8: 'partition', 9: 'limit'}.get(rj['row'], str(rj['row']))
             key = 'hom:%s:%s' % (f_name(ln['f']), clause) if clause in ('sum-of-f', 'f-of-sum', 'f-per-row', 'f-of-sum-value') \
                 else 'sum:%s:%s' % (clause, f_name(ln['f']))
             ctx.violation(key, 'law %s rejected by TLC for %s' % (clause, ln['_text']),
@@ -726,16 +806,21 @@ def hb_show_rows(rows):
 # ---- the check --------------------------------------------------------------------------------------------------------
 def run(ctx):
     ctx.rule = ('S2C: one case = one TLC-simulated (ledger <= 5 postings over 7 lots x 7 numbers, row filter, 2 groups, '
-                'conjunct list, target list with 0..3 balance references, interposed subquery with/without balance, price '
-                'table), distinct by its JSON; non-trivial = at least one posting.  C2S: one line = one statement family on '
+                'conjunct list, target list with 0..3 balance references, interposed subquery with/without balance, one of '
+                '4 price tables -- one with prices dated in 2999), distinct by its JSON; non-trivial = at least one posting.  C2S: one line = one statement family on '
                 'a window of the Beancount example ledger or a seeded random ledger; distinct by statement and data; one '
                 'evaluation per statement executed over a sub-select of partial sums or over a table holding inventories '
-                '(S2C: chunks of the generated ledger; C2S: per-transaction inventories, history of 2..4 statements)')
+                '(S2C: chunks of the generated ledger; C2S: per-transaction inventories, history of 2..4 statements) and per '
+                'grouped statement over postings repeated with a LIMIT')
     ctx.assumptions += [
         'numbers: integers in the specification; the driver scales units by 1, 10 or 100 (all four functions are linear '
         'in the units); trace files carry integers in minor units, cases needing |n| >= 2^31 are skipped and counted',
         'value / convert: only forward price pairs are looked up in generated cases (Beancount also synthesises inverse '
         'rates; those are outside the transcription)',
+        'LIMIT without ORDER BY: WHICH groups an aggregate statement returns is not judged (any LIMIT-many distinct groups '
+        'of the selection are accepted); every returned row must carry the sums of all the rows of its group',
+        'a value() / convert() without a date uses the latest price entered in the ledger, also when that price is dated '
+        'after the day the check runs (Beancount: prices.get_price(.., None)); the same for positions and inventories',
         'tables holding inventories: the expected result of every statement of a history is computed from the table as '
         'the driver defined it (recorded before anything runs): a SELECT that changes the values stored in a user table is '
         'counted as a wrong sum of "the group\'s values" from the next statement on',
@@ -765,6 +850,10 @@ def run(ctx):
     r2 = ctx.tlc('MC_SumStore', 'MC_SumStore_adopt.cfg', leg='MC-nonvacuity', expect_violation='ResultInv', workers=4)
     if not ctx.quick:
         ctx.tlc('MC_SumStore', 'MC_SumStore_adopt_hist.cfg', leg='MC-nonvacuity', expect_violation='ResultInv', workers=4)
+    r3 = ctx.tlc('MC_SumStore', 'MC_SumStore_stoplimit.cfg', leg='MC-nonvacuity', expect_violation='ResultInv', workers=4)
+    ctx.leg('MC', stop_at_limit_counterexample='GROUP BY g LIMIT 1: the scan is abandoned at the first row of the second '
+            'group, later rows of the first group are missing from its sum' if 'StopScan' in r3.behaviour
+            else 'see the behaviour reported by TLC')
     ctx.leg('MC', adopt_counterexample='two sum(inv) nodes share the adopted first cell: the second row is added twice'
             if 'slots |-> <<1, 1>>' in r2.behaviour else 'see the behaviour reported by TLC')
     # ---- S2C
